@@ -241,7 +241,7 @@ CHAINS = ["Mainnet", "Regtest", "Signet", "Testnet", "Testnet4"]
 
 
 def chain_tables(repo):
-    src = strip_line_comments(open(os.path.join(repo, "src", "chain.rs")).read())
+    src = extract.read_src(os.path.join(repo, "src", "chain.rs"))
     m = re.search(r"pub enum Chain\s*\{(.*?)\n\}", src, re.S)
     if not m:
         raise ShapeError("chain.rs: enum Chain not found")
@@ -286,7 +286,7 @@ def lean_str(s):
 
 
 def run(repo, gen):
-    src = strip_line_comments(open(os.path.join(repo, "src", "settings.rs")).read())
+    src = extract.read_src(os.path.join(repo, "src", "settings.rs"))
     # cut the test module off: everything below is about the non-test code
     cut = src.find("#[cfg(test)]\nmod tests")
     if cut < 0:
